@@ -9,6 +9,7 @@ use std::rc::Rc;
 
 pub const D3_KEY: &str = "hole-carried-through-substitution@de_bruijn::{open,signed_shift}";
 pub const D4_KEY: &str = "stuck:unresolved-source-hole-is-redex";
+pub const D20_KEY: &str = "acceptance-lost:let-wrapped-type-cannot-leave-the-group-of-an-unannotated-definition";
 pub const D16_KEY: &str = "acceptance-lost:unresolved-hole-refuses-rescoping@de_bruijn::signed_shift";
 
 pub const NBE_FUEL: u64 = 400_000;
